@@ -173,6 +173,8 @@ def describeSna (f : Bytes) (prev : AState) : Option AState :=
     let a := (a.withPage 5 (chunk16 f 0 27)).withPage 2 (chunk16 f 1 27) |>.withPage 0 (chunk16 f 2 27)
     -- PC is popped: the two bytes at SP
     let a := { a with regs := g }
+    -- a stack pointer into ROM leaves PC to the ROM contents: not described by the file
+    if g.sp.toNat < 16384 ∨ (g.sp + 1).toNat < 16384 then none else
     let pc := w16 (a.peek g.sp.toNat) (a.peek (g.sp + 1).toNat)
     some { a with regs := { g with pc := pc, sp := g.sp + 2 } }.atBoundary
   | some .k128 =>
